@@ -60,6 +60,6 @@ with ThreadPoolExecutor(slots) as ex:
         allres.extend(part)
 for s in range(slots):
     subprocess.run("rm -rf /tmp/seedrc-target-%d /tmp/seedrc-out-%d /tmp/seedrc-work-%d" % (s, s, s), shell=True)
-missed = [r[0] for r in allres if r[2] != "caught"]
+missed = [r[0] for r in allres if not r[2].startswith("caught")]
 json.dump([{"name": r[0], "property": r[1], "status": r[2], "violations": r[3]} for r in sorted(allres)], open(V + "/seeded/recheck.json", "w"), indent=1)
 print("seeded changes: %d, caught: %d, not caught: %s" % (len(allres), len(allres) - len(missed), missed))
